@@ -51,7 +51,7 @@ func init() {
 var wirePrimitives = map[string]bool{
 	"(*commit.Buffer).writeChunk": true, "(*commit.Buffer).writeOffset": true, "(*commit.Buffer).PutBytes": true,
 	"(*commit.Buffer).PutOperation": true,
-	"(*commit.Buffer).writeUint16": true, "(*commit.Buffer).writeUint32": true, "(*commit.Buffer).writeUint64": true,
+	"(*commit.Buffer).writeUint16":  true, "(*commit.Buffer).writeUint32": true, "(*commit.Buffer).writeUint64": true,
 }
 
 func wireInline(fn *ssa.Function) bool {
